@@ -376,6 +376,50 @@ func ruleR8_4(w *World, r *Report) {
 		idx ssa.Value
 	}
 	var guards []guard
+	guardOf := func(b *ssa.BasicBlock) (ssa.Value, bool) {
+		iff, ok := b.Instrs[len(b.Instrs)-1].(*ssa.If)
+		if !ok {
+			return nil, false
+		}
+		bo, ok := iff.Cond.(*ssa.BinOp)
+		if !ok || bo.Op != token.LSS {
+			return nil, false
+		}
+		if _, ok := isFieldLoad(bo.Y, "explain.Problem", "NbClauses"); !ok {
+			return nil, false
+		}
+		for _, ins := range b.Succs[0].Instrs {
+			if st, ok := ins.(*ssa.Store); ok {
+				if ia, ok := st.Addr.(*ssa.IndexAddr); ok && ia.Index == bo.X {
+					if _, ok := isFieldLoad(ia.X, "explain.Problem", "tagged"); ok {
+						if k, ok := st.Val.(*ssa.Const); ok && k.Value != nil && k.Value.String() == "true" {
+							return bo.X, true
+						}
+					}
+				}
+			}
+		}
+		return nil, false
+	}
+	// a helper that does the guarded tagging of the clause index it is handed (`pb.tag(i)`): its entry block is the
+	// guard; a call of it stands for the guard, in the block of the call
+	sameBlock := map[*ssa.BasicBlock]bool{}
+	for _, ci := range callsIn(fn) {
+		h := ci.Common().StaticCallee()
+		if h == nil || w.PkgName(h) != "explain" || len(h.Blocks) == 0 || h == fn {
+			continue
+		}
+		idx, ok := guardOf(h.Blocks[0])
+		if !ok {
+			continue
+		}
+		pi := paramIndex(h, idx)
+		if pi < 0 || pi >= len(ci.Common().Args) {
+			continue
+		}
+		guards = append(guards, guard{ci.Block(), ci.Common().Args[pi]})
+		sameBlock[ci.Block()] = true
+	}
 	for _, b := range fn.Blocks {
 		iff, ok := b.Instrs[len(b.Instrs)-1].(*ssa.If)
 		if !ok {
@@ -408,6 +452,9 @@ func ruleR8_4(w *World, r *Report) {
 	covered := func(u ssa.Instruction) bool {
 		ub := u.Block()
 		for _, g := range guards {
+			if g.blk == ub && sameBlock[ub] {
+				return true
+			}
 			if g.blk.Dominates(ub) && g.blk != ub {
 				// the guard must belong to the same iteration: no back edge between guard and use, i.e. use reachable
 				// from guard without passing the loop header again is implied by dominance inside the loop body
